@@ -314,6 +314,14 @@ def engine_cases(ctx) -> list[dict]:
             add(kind="crash", at=at, spec=spec, name=f"trans_{variant}_crash", drain="fifo", max_steps=60 + 3 * k, c14=meta)
             if thorough:
                 add(kind="crash", at=at, spec=spec, name=f"trans_{variant}_crash", drain="random", max_steps=60 + 3 * k, c14=meta)
+    # a recovery sweep while the retry / the next poll is waiting for its backoff: the parked RunTask IS the task's pending
+    # message, so the sweep must not queue a second, immediate one (no backoff, a fresh attempt counter, an extra execution)
+    for (k, variant, nt, pos, surround) in [(2, "ctx", 1, 0, False), (2, "run", 2, 1, True), (3, "plain", 1, 0, True)]:
+        spec = make_spec(k, variant, nt, pos, surround)
+        meta = {"k": k, "variant": variant, "ntasks": nt, "pos": pos, "surround": surround, "sweeps": True}
+        for at in range(0, 22 if thorough else 16):
+            add(kind="inject", what="recover", at=at, times=1 + at % 2, spec=spec, name=f"trans_{variant}_sweep", policy="fifo",
+                max_steps=60 + 3 * k, c14=meta)
     # redelivery of the SAME RunTask row: B, StartWorkflow(1), StartStage(2), StartTask(3) -> RunTask is row 4
     warm = [["B"], ["D", 1, True], ["D", 2, True], ["D", 3, True]]
     for variant in ("plain", "ctx", "run"):
